@@ -147,12 +147,38 @@ def forfeit_block(r, first):
     return b
 
 
+UPTIME_S = [0, 60, 3600, 86400, 7 * 86400, 14 * 86400]
+
+
+def uptime_edge_block(r, first):
+    """uptime thresholds hit exactly: an incentive on uptime u, a fresh in-range position, then exactly that uptime (or one second less /
+    more) of block time, then the position collects its incentives: met at age >= uptime, forfeited below."""
+    a0, a1 = max(1, int(first.get("amt0", "1000"))), max(1, int(first.get("amt1", "1000")))
+    u = r.choice([1, 1, 2, 2, 3, 4, 5])
+    b = [{"k": "incentive", "a": r.below(3), "d": r.below(2), "amt": str(r.choice([10**6, 10**9, 10**12]) * r.range(1, 9)),
+          "rate": str(r.choice([10**15, 10**18, 10**19]) * r.range(1, 9)), "u": u, "dt": 0}]
+    if r.chance(1, 2):
+        b.append({"k": "incentive", "a": r.below(3), "d": r.below(2), "amt": str(10**9 * r.range(1, 9)), "rate": str(10**18 * r.range(1, 9)),
+                  "u": r.choice([0, 1, 2, 3]), "dt": 0})
+    b.append({"k": "create_at", "a": r.below(3), "edge": "lower", "wd": r.choice([1, 2, 10, 100, 5000]), "off": 0,
+              "amt0": str(max(1, a0 // r.choice([1, 2, 10]))), "amt1": str(max(1, a1 // r.choice([1, 2, 10]))), "min0": "0", "min1": "0"})
+    b.append({"k": "time", "dt": max(1, UPTIME_S[u] + r.choice([-1, 0, 0, 0, 1]))})
+    if r.chance(2, 3):
+        b.append({"k": "collect_inc", "a": r.below(3), "sels": [SEL_LAST], "own": True})
+    else:
+        b.append({"k": "withdraw", "a": r.below(3), "sel": SEL_LAST, "own": True, "num": 1, "den": r.choice([1, 2])})
+    b.append({"k": "time", "dt": r.choice([1, 60])})
+    b.append({"k": "collect_inc", "a": r.below(3), "sels": [SEL_LAST, r.below(64)], "own": True})
+    return b
+
+
 def boundary_blocks(r, ops, nops):
     first = ops[0] if ops and ops[0].get("k") == "create" else {}
     out = list(ops)
     for _ in range(r.choice([1, 1, 2, 3])):
         at = r.range(1, max(1, min(len(out), nops - 6)))
-        out[at:at] = boundary_block(r, first) if r.chance(2, 3) else forfeit_block(r, first)
+        x = r.below(6)
+        out[at:at] = boundary_block(r, first) if x < 3 else forfeit_block(r, first) if x < 5 else uptime_edge_block(r, first)
     return out
 
 
